@@ -71,6 +71,38 @@ class W(cohdl.Entity):
 """
 
 
+FIFO_DELAY_SRC = """import cohdl
+from cohdl import Bit, Port, Unsigned, Null
+from cohdl import std
+
+class W(cohdl.Entity):
+    clk = Port.input(Bit)
+    push = Port.input(Bit)
+    pop = Port.input(Bit)
+    din = Port.input(Unsigned[{w}])
+    pushed = Port.output(Bit, default=False)
+    popped = Port.output(Bit, default=False)
+    dout = Port.output(Unsigned[{w}], default=Null)
+
+    def architecture(self):
+        fifo = std.Fifo[Unsigned[{w}], {n}]({args})
+
+        @std.sequential(std.Clock(self.clk))
+        def producer():
+            if self.push:
+                if {full_first}:
+                    fifo.push(self.din)
+                    self.pushed ^= True
+
+        @std.sequential(std.Clock(self.clk))
+        def consumer():
+            if self.pop:
+                if {empty_first}:
+                    self.dout <<= fifo.pop()
+                    self.popped ^= True
+"""
+
+
 def configs(tier):
     fifo = [(2, 1), (3, 1), (4, 1), (2, 2)] if tier == "quick" else [(2, 1), (3, 1), (4, 1), (5, 1), (8, 1), (2, 2), (3, 2), (4, 2), (5, 2)]
     stack = [(1, 1), (2, 1), (3, 1)] if tier == "quick" else [(1, 1), (2, 1), (3, 1), (4, 1), (5, 1), (2, 2), (3, 2), (4, 2)]
@@ -92,6 +124,13 @@ def run(ck: common.Check, replay=None):
             sw = n.bit_length()
             designs.append({"name": name, "source": STACK_SRC.format(n=n, w=w, sw=sw, mode=mode), "entity": "W"})
             metas.append(("stack", n, w, mode))
+    # delayed Fifo: producer and consumer in different contexts (safety monitor)
+    dl = [(2, 1, 1, 0), (3, 1, 1, 1)] if ck.tier == "quick" else [(n, 1, t, r) for n in (2, 3, 4) for (t, r) in ((1, 0), (0, 1), (1, 1), (2, 1))]
+    for n, w, tx, rx in dl:
+        args = ", ".join(a for a in (f"tx_delay={tx}" if tx else "", f"rx_delay={rx}" if rx else "") if a)
+        name = f"fifo_delay_n{n}_w{w}_t{tx}_r{rx}"
+        designs.append({"name": name, "source": FIFO_DELAY_SRC.format(n=n, w=w, args=args, full_first="~fifo.full()", empty_first="~fifo.empty()"), "entity": "W"})
+        metas.append(("fifo_delay", n, w, (tx, rx)))
     res = X.compile_designs(ck, designs)
     cases = []
     for dsg, meta, r in zip(designs, metas, res):
@@ -101,7 +140,14 @@ def run(ck: common.Check, replay=None):
             ck.violation({"config": dsg["name"]}, "wrapper around the real component no longer compiles: " + r["error"][:200],
                          {"source": dsg["source"], "error": r.get("trace", r["error"])}, no_input=True)
             continue
-        if kind == "fifo":
+        if kind == "fifo_delay":
+            tx, rx = mode
+            k = 2 * (tx + rx) + 4
+            c = X.Case(dsg["name"], r["vhdl"], step=f"fifo_monitor {n} {k}%Z", init="[0%Z; 0%Z]", monitor=True,
+                       imports="From Cohdl Require Import Models.StdSpecs.",
+                       meta={"component": "Fifo (two contexts)", "N": n, "w": w, "tx_delay": tx, "rx_delay": rx,
+                             "response_bound": k, "source": dsg["source"]})
+        elif kind == "fifo":
             c = X.Case(dsg["name"], r["vhdl"], step=f"queue_step {n} {w}%N", init="[0%Z]",
                        assume=f"queue_assume {n}", imports="From Cohdl Require Import Models.StdSpecs.",
                        meta={"component": "Fifo", "N": n, "w": w, "source": dsg["source"]})
